@@ -60,22 +60,35 @@ class Slice:
 
     def __init__(self):
         self.sessions = []
+        self.kept = []      # (argument objects, copies taken before the call) of every session of the history
 
     def session_begin(self, c, spec, full_candles):
         self.start = len(c.trace)
         self.args_before = copy.deepcopy(c.scratch['args'])
         self.hp_before = copy.deepcopy(spec.get('hyperparameters'))
+        self.kept.append((c.scratch['args'], self.args_before))
 
-    def session_end(self, c, spec, out):
-        args = c.scratch['args']
+    @staticmethod
+    def compare(before, now):
         mutated = []
         names = ('config', 'routes', 'data_routes', 'candles', 'warmup_candles')
-        for n, a, b in zip(names, self.args_before, args):
+        for n, a, b in zip(names, before, now):
             if n == 'routes':
                 a = [{k: v for k, v in r.items()} for r in a]
                 b = [{k: v for k, v in r.items()} for r in b]
             if not deep_equal(a, b):
                 mutated.append(n)
+        return mutated
+
+    def late_check(self):
+        """the caller still holds the objects it passed to earlier calls: none of them may have been changed by a
+        LATER call either"""
+        for i, (objs, before) in enumerate(self.kept):
+            self.sessions[i]['late_mutated'] = self.compare(before, objs)
+
+    def session_end(self, c, spec, out):
+        args = c.scratch['args']
+        mutated = self.compare(self.args_before, args)
         if not deep_equal(self.hp_before, spec.get('hyperparameters')):
             mutated.append('hyperparameters')
         self.sessions.append({'trace': c.trace[self.start:], 'status': out['status'], 'exc': out.get('exc'),
@@ -97,7 +110,10 @@ def run_sequence(arg):
             c.id_counter = 0          # ids are random uuids in reality: not part of the comparison
             c.horizon = {}
             c.max_horizon = -1
-            S.run_backtest(c, spec, fc, label)
+            # the second probe call re-uses the caller's argument OBJECTS of the first one in half of the histories
+            reuse = c.scratch['args'] if (label == 'p2' and spec.get('_reuse_args')) else None
+            S.run_backtest(c, spec, fc, label, args=reuse)
+        sl.late_check()
     finally:
         C.set_current(None)
     return {'sessions': sl.sessions, 'counters': dict(c.counters)}
@@ -119,6 +135,7 @@ class HistoryCheck(BaseCheck):
     def make(self, seed):
         st = Stream(seed, 'hist')
         probe = S.gen_spec(H(seed, 'probe') & ((1 << 60) - 1), probe_profile(st.sub('pp')))
+        probe['_reuse_args'] = st.chance(0.5, 'reuse_args')
         n = st.wchoice([(0, 0.1), (1, 0.35), (2, 0.3), (3, 0.15), (4, 0.1)], 'n')
         earlier = []
         for j in range(n):
@@ -180,6 +197,12 @@ class HistoryCheck(BaseCheck):
         for name, s in (('p1', p1), ('p2', p2)):
             if s['mutated']:
                 viol('args-mutated', f"C11|argument-mutated|{','.join(s['mutated'])}", {'call': name})
+        for j, s in enumerate(S_):
+            if s.get('late_mutated'):
+                viol('args-mutated', f"C11|argument-of-an-earlier-call-changed-by-a-later-call|{','.join(s['late_mutated'])}",
+                     {'call': j, 'of': len(S_)})
+                break
+        cnt['second_call_reuses_argument_objects'] = int(bool(probe.get('_reuse_args')))
         # (1) probe after history == probe in a fresh process
         if p1['status'] != f['status'] or p1.get('exc_type') != f.get('exc_type'):
             viol('history-dependence', f"C11|probe-outcome-depends-on-history|fresh={f['status']}|after-history={p1['status']}:{p1.get('exc_type')}|{hist_tag}",
@@ -256,11 +279,13 @@ CHECK = HistoryCheck(
           'drawn hook at a drawn candle, or a forced order rejection) - then the probe call twice. The probe is also executed in a fresh '
           'forked process without history. Oracle: (1) probe outcome, result dict and full event trace (hooks with balance, margin, hp, '
           'exchange type, leverage, fee rate, shared_vars; orders; fills) after the history == fresh, bit for bit; (2) second call == first; '
-          '(3) config, routes, data routes, candle and warm-up arrays, hyperparameters deep-equal to copies taken before the call. '
+          '(3) config, routes, data routes, candle and warm-up arrays, hyperparameters deep-equal to copies taken before the call - '
+          'again for every call of the history after the last call has returned; in half of the histories the second probe call is '
+          'given the very objects of the first. '
           'jesse runs in production mode (outside pytest). non-trivial = >=1 earlier session and >=1 order in the probe'),
     assumptions=['order/trade ids are random uuids in reality and excluded from the comparison (the id counter restarts per session)'],
     real_components=COMMON_REAL + ['process-global state: helpers.CACHED_CONFIG, services.api.api.drivers, config dict, store singleton, lru_caches'],
     stub_components=COMMON_STUB,
     fault_kinds=['fault_hook_exception', 'fault_order_rejection', 'skew_same_exchange_name', 'skew_other_exchange_name', 'skew_spot_futures_same_name'],
-    probes=['earlier_sessions', 'earlier_ok', 'earlier_injected-fault', 'earlier_legal-rejection'],
+    probes=['second_call_reuses_argument_objects', 'earlier_sessions', 'earlier_ok', 'earlier_injected-fault', 'earlier_legal-rejection'],
 )
